@@ -337,7 +337,7 @@ class ProjectGen:
                 if ins.hexaddr:
                     astr = '${:04X}'.format(ins.addr)
                 else:
-                    astr = rng.choice(('{:05d}', '{}')).format(ins.addr)
+                    astr = rng.choice(('{:05d}', '{}' if ins.addr >= 10000 else '{:05d}')).format(ins.addr)   # the address field is 5 characters wide
                 line = '{}{} {}'.format(ctl, astr, ins.op)
                 if ins.comment:
                     line = '{:<28} ; {}'.format(line, ins.comment)
@@ -357,7 +357,7 @@ class ProjectGen:
         single = self.single = fl.get('single', rng.random() < 0.35)
         self.audio = fl.get('audio', rng.random() < 0.3)
         n_other = fl.get('n_other', rng.choice((0, 0, 1, 1, 2)))
-        starts = rng.sample((24576, 32768, 40000, 49152, 57344, 65300), 1 + n_other)
+        starts = rng.sample((0, 24576, 32768, 40000, 49152, 57344, 65300), 1 + n_other)   # 0: a ROM disassembly (entry at address 0)
         if rng.random() < 0.25 and n_other:
             starts[1] = starts[0]          # overlapping address ranges in main and other code
         ids = ['main'] + rng.sample(('other', 'start', 'Load', 'c2', 'Save$1'), n_other)
